@@ -586,6 +586,22 @@ def fact_nonzero(facts, term):
     return False
 
 
+def fact_at_least(facts, term, k):
+    """A dominating fact implies term >= k."""
+    term = _c(term)
+    for f in facts:
+        if f[0] != "cmp":
+            continue
+        a, b = _c(f[2]), _c(f[3])
+        if a == term and b[0] == "const" and isinstance(b[1], int):
+            if (f[1] == "Gt" and b[1] >= k - 1) or (f[1] == "Ge" and b[1] >= k) or (f[1] == "Eq" and b[1] >= k):
+                return True
+        if b == term and a[0] == "const" and isinstance(a[1], int):
+            if (f[1] == "Lt" and a[1] >= k - 1) or (f[1] == "Le" and a[1] >= k):
+                return True
+    return False
+
+
 def fact_zero(facts, term):
     term = _c(term)
     for f in facts:
